@@ -130,7 +130,7 @@ PROPS = {
                        "Whole image: Model/Dump.lean is a closed-form model of generate_dump and its eighteen writers (header, directory, every stream body and "
                        "referenced blob in append order, every stored offset computed from what precedes it); C01_image_header / _directory / _streams_disjoint / "
                        "_thread_refs / _aliases prove, for every content record, what a reader finds in that image; the driver decodes every real image into such a "
-                       "record and demands that the model rebuilds the image byte for byte (every byte of a real dump is accounted for by the model).",
+                       "record and demands that the model rebuilds the image byte for byte (every byte of a real dump is accounted for by the model). C01_compose_dump: generate_dump as builder operations (header and directory reserved, header filled, the eighteen writers in order, each directory entry set into the next slot) produces exactly the closed-form image (opDump d = some (dumpBytes d)); C01_refine_* / C01_image_module_refs / _os_version / _handle_refs / _link_map_refs cover the remaining writers and references.",
     },
     "C19": {
         "rule": "live: 2 … 5 dump requests on one configured writer against a blocked target, then one request on a freshly configured writer; every "
@@ -142,7 +142,7 @@ PROPS = {
         "assumptions": ["Linux writer only (src/mac has the same field but cannot be built here)"],
         "explanation": "C19 theorems over the model of the writer's per-request state: with the reset on entry an image is independent of the state left by "
                        "earlier requests, hence in every history each image equals a fresh writer's; source fact (regenerated): dump() resets the three "
-                       "fields; counterexample theorem for the unrepaired code. Live histories check the real writer.",
+                       "fields; counterexample theorem for the unrepaired code. Live histories check the real writer. At the level of the image: C19_image_fresh (with the reset on entry the operations of dump() produce the closed-form image of what was gathered for this request: Compose_dump) and C19_image_legacy_counterexample (started with a block left behind, the same operations give a different image for the same request).",
     },
     "C05": {
         "rule": "in-process: random ucontext / fpstate register files (boundary values per field) through the real CrashContext::fill_cpu_context and scroll; "
@@ -168,7 +168,7 @@ PROPS = {
         "trusted_base": ["kernel ptrace stop semantics (a thread that was attached and waited for does not run until detached)", "the live target reports its own register values"],
         "assumptions": ["part (iii) is partial: real scheduling cannot be exhibited by the model; live runs sample it (busy threads, one-step agreement of three copies of a counter)"],
         "explanation": "C04 theorems: (i) every ptrace-obtained register at its WinNT CONTEXT offset; (ii) the list is exactly the attachable, non-null-SP threads, "
-                       "once each, each with its own registers, every omitted thread reported; (iii) regenerated source fact: no target-reading step after resume.",
+                       "once each, each with its own registers, every omitted thread reported; (iii) regenerated source fact: no target-reading step after resume. C04_refine_thread_list: thread_list_stream::write as builder operations (count, reserved record array, per thread stack / window / context then set_value_at(record, idx)) appends exactly the thread-list stage of the whole-image model, one record per thread in order, and registers exactly its memory blocks and crashing-thread context; C04_image_thread: record k points at thread k's own context bytes.",
     },
     "C07": {
         "rule": "live dumps: pattern regions of 1 … 70000 bytes at all alignments ending at an unmapped / PROT_NONE / readable page requested as app memory, "
